@@ -112,7 +112,7 @@ def check_delivery(run, labels):
     return nontrivial
 
 
-def make_script_fn(t, max_t_fn, continue_from_checkpoint, fail_rate=0):
+def make_script_fn(t, max_t_fn, continue_from_checkpoint, fail_rate=0, nan_rate=0):
     curve = {}
 
     def script_fn(trial_id, run_index, config, paused_level):
@@ -124,7 +124,10 @@ def make_script_fn(t, max_t_fn, continue_from_checkpoint, fail_rate=0):
         for lv in range(start, end + 1):
             key = (trial_id, lv)
             if key not in curve:
-                curve[key] = t.float(0.0, 1.0)
+                if nan_rate and t.chance(1, nan_rate):
+                    curve[key] = float("nan")  # a diverged training run reports NaN
+                else:
+                    curve[key] = t.float(0.0, 1.0)
             lines.append({"epoch": lv, "loss": curve[key]})
         code = 0
         if fail_rate and t.chance(1, fail_rate):
